@@ -388,6 +388,22 @@ pub fn iter_routes<I: Iterator<Item = J>>(mk: &dyn Fn() -> I) -> Option<String> 
 		if k < n && it.next() != stepped.get(k + 1).cloned() {
 			return Some(format!("next() after nth({k})"));
 		}
+		// nth on an iterator that has already yielded elements by next()
+		for pre in 1..3usize {
+			let mut it = mk();
+			for _ in 0..pre {
+				it.next();
+			}
+			if it.nth(k) != stepped.get(pre + k).cloned() {
+				return Some(format!("nth({k}) after {pre} x next()"));
+			}
+			if it.next() != stepped.get(pre + k + 1).cloned() {
+				return Some(format!("next() after nth({k}) after {pre} x next()"));
+			}
+		}
+		if k >= 1 && mk().step_by(k).collect::<Vec<_>>() != stepped.iter().step_by(k).cloned().collect::<Vec<_>>() {
+			return Some(format!("step_by({k})"));
+		}
 		let mut it = mk();
 		let (a, b): (Vec<J>, Vec<J>) = (it.by_ref().take(k).collect(), it.collect());
 		if a.iter().chain(b.iter()).cloned().collect::<Vec<_>>() != stepped {
